@@ -70,10 +70,6 @@ var srvInfoWatched = map[string]string{
 	"started protocol":               "handshake_completed",
 	"new peer connected":             "peer_connected",
 	"not all headers were processed": "headers_truncated",
-	"try to sync state for the latest state synchronisation point": "statesync_initialised",
-	"headers are in sync":     "statesync_headers_in_sync",
-	"MPT is in sync":          "statesync_mpt_in_sync",
-	"blocks are in sync":      "statesync_blocks_in_sync",
 	"changing dbft view":      "view_changed",
 	"missing tx":              "consensus_missing_tx",
 	"sending RecoveryMessage": "recovery_message_sent",
@@ -373,5 +369,3 @@ func joinerLocal(j SrvJoiner) Local {
 	}
 	return Local{Backend: simdisk.Memory, VerifyTx: true}
 }
-
-func trimAddr(a string) string { return strings.TrimSuffix(a, fmt.Sprintf(":%d", srvPort)) }
